@@ -1,17 +1,520 @@
-//! C14 — correspondence driver (stub: not built yet).
+//! C14 — mean, variance, covariance, softmax, F1.  See lean/Driver/C14.lean for the protocol.
+//! Operand definitions (`t`, `v`, `m`, `w` lines) are shared with C03.
 
+use crate::c03::{run_fp, run_rat, Elem};
+use crate::exact::{Fp, Rat, P};
 use crate::util::*;
+use easy_ml::linear_algebra;
+use easy_ml::matrices::Matrix;
+use easy_ml::tensors::views::TensorView;
+use easy_ml::tensors::Tensor;
 
-pub fn gen(_g: &mut Gen) {}
+// ---------------------------------------------------------------------------------------------
+// generation
+// ---------------------------------------------------------------------------------------------
 
-pub struct Runner;
+fn fp_val(g: &mut Gen) -> String {
+    match g.rng.below(16) {
+        0 => "0".into(),
+        1 => "1".into(),
+        _ => (g.rng.next() % P).to_string(),
+    }
+}
+fn rat_val(g: &mut Gen) -> String {
+    let n = g.rng.below(25) as i128 - 12;
+    let d = g.rng.range(1, 5) as i128;
+    Rat::new(n, d).show()
+}
+fn val(g: &mut Gen, e: &str) -> String {
+    if e == "fp" { fp_val(g) } else { rat_val(g) }
+}
+fn vals(g: &mut Gen, e: &str, n: usize) -> String {
+    if n == 0 { "-".into() } else { (0..n).map(|_| val(g, e)).collect::<Vec<_>>().join(",") }
+}
+
+const LIST_VIAS: [&str; 4] = ["into_iter", "cloned", "matrix_column", "tensor_iter"];
+/// iterator sources whose `size_hint` is not the exact remaining length (`mean`, `variance` and
+/// `softmax` take any `Iterator<Item = T>` and must not depend on the hint); usable for every
+/// length, the empty one included
+const HINT_VIAS: [&str; 8] = ["filter", "filter_map", "take_while", "skip_while", "chain", "nohint", "loosehint", "chain_filter"];
+
+fn pick_list_via(g: &mut Gen, n: usize) -> &'static str {
+    // half of the time one of the inexact-hint sources
+    if g.rng.chance(1, 2) {
+        HINT_VIAS[g.rng.below(HINT_VIAS.len())]
+    } else if n == 0 {
+        LIST_VIAS[g.rng.below(2)]
+    } else {
+        LIST_VIAS[g.rng.below(4)]
+    }
+}
+const COVT_VIAS_PLAIN: [&str; 9] = ["fn-t", "fn-rt", "fn-v", "fn-rv", "fn-bv", "fn-rbv", "m-t", "m-v", "m-bv"];
+const COVT_VIAS_ACCESS: [&str; 6] = ["fn-av", "fn-rav", "fn-bv", "fn-rbv", "m-av", "m-bv"];
+const COVT_VIAS_BOXED: [&str; 3] = ["fn-bv", "fn-rbv", "m-bv"];
+
+fn gen_lists(g: &mut Gen) {
+    let max = if g.thorough { 12 } else { 6 };
+    for e in ["fp", "rat"] {
+        g.op(format!("@ {}", e));
+        for n in 0..=max {
+            for rep in 0..(if g.thorough { 4 } else { 2 }) {
+                let v = vals(g, e, n);
+                let _ = rep;
+                let via = pick_list_via(g, n);
+                g.op(format!("mean {} via={}", v, via));
+                g.count(&format!("mean.via.{}", via));
+                let via = pick_list_via(g, n);
+                g.op(format!("variance {} via={}", v, via));
+                g.count(&format!("variance.via.{}", via));
+                g.count(&format!("list.length={}", n));
+                g.count(&format!("list.ety={}", e));
+            }
+        }
+        // every iterator source on the same data: all must give the one answer
+        let v = vals(g, e, 5);
+        for via in LIST_VIAS.iter().chain(HINT_VIAS.iter()) {
+            g.op(format!("mean {} via={}", v, via));
+            g.op(format!("variance {} via={}", v, via));
+            g.count(&format!("mean.via.{}", via));
+            g.count(&format!("variance.via.{}", via));
+        }
+        for via in HINT_VIAS.iter() {
+            g.op(format!("mean - via={}", via));
+            g.op(format!("variance - via={}", via));
+        }
+        // all-equal data (variance 0) and two-point data
+        let x = val(g, e);
+        g.op(format!("variance {},{},{} via=cloned", x, x, x));
+        g.op(format!("mean {},{},{} via=into_iter", x, x, x));
+        for _ in 0..(if g.thorough { 40 } else { 10 }) {
+            let (p, r) = (val(g, e), val(g, e));
+            g.op(format!("f1 {} {}", p, r));
+            g.count("f1.random");
+        }
+        // precision + recall = 0 (the quotient's denominator vanishes)
+        if e == "rat" {
+            g.op("f1 1/2 -1/2".to_string());
+            g.op("f1 0 0".to_string());
+        } else {
+            g.op(format!("f1 5 {}", P - 5));
+            g.op("f1 0 0".to_string());
+        }
+        g.count_n("f1.zero_denominator", 2);
+    }
+}
+
+fn gen_cov_case(g: &mut Gen, e: &str, samples: usize, features: usize) {
+    g.op(format!("@ {}", e));
+    g.count(&format!("cov.samples={}", samples));
+    g.count(&format!("cov.features={}", features));
+    g.count(&format!("cov.ety={}", e));
+    let data: Vec<String> = (0..samples * features).map(|_| val(g, e)).collect();
+    // samples x features (column features) and its transpose (row features)
+    let flat = data.join(",");
+    let mut tr = vec![];
+    for f in 0..features {
+        for s in 0..samples {
+            tr.push(data[s * features + f].clone());
+        }
+    }
+    let flat_t = tr.join(",");
+    g.op(format!("m M {} {} {}", samples, features, flat));
+    g.op(format!("m MT {} {} {}", features, samples, flat_t));
+    for via in ["fn", "method"] {
+        g.op(format!("covcol M via={}", via));
+        g.op(format!("covrow MT via={}", via));
+    }
+    // the other reading of the same matrices (features and samples exchanged)
+    g.op("covrow M via=fn".to_string());
+    g.op("covcol MT via=method".to_string());
+    // tensors: feature dimension second / first, same data
+    let (sn, fname) = if g.rng.chance(1, 4) { ("i", "j") } else if g.rng.chance(1, 3) { ("j", "i") } else { ("s", "f") };
+    g.op(format!("t T {}:{},{}:{} {}", sn, samples, fname, features, flat));
+    g.op(format!("t TT {}:{},{}:{} {}", fname, features, sn, samples, flat_t));
+    for name in ["T", "TT"] {
+        for via in COVT_VIAS_PLAIN {
+            if g.thorough || g.rng.chance(1, 2) {
+                g.op(format!("covt {} {} via={}", name, fname, via));
+                g.count(&format!("covt.via.{}", via));
+                g.count(if name == "T" { "covt.feature_second" } else { "covt.feature_first" });
+            }
+        }
+    }
+    // the other dimension as the feature dimension
+    g.op(format!("covt T {} via=fn-rt", sn));
+    g.op(format!("covt TT {} via=m-t", sn));
+    // a name that is not in the shape
+    let k = g.rng.below(9);
+    g.op(format!("covt T zz via={}", COVT_VIAS_PLAIN[k]));
+    g.count("covt.unknown_feature_name");
+    // view inputs whose iteration order differs from their storage order
+    g.op(format!("v VA T access {},{}", fname, sn));
+    g.op(format!("v VX TT transpose {},{}", sn, fname));
+    g.op(format!("v VR T reverse {}", sn));
+    g.op(format!("v VN T rename p,q"));
+    for via in COVT_VIAS_ACCESS {
+        if g.thorough || g.rng.chance(1, 2) {
+            g.op(format!("covt VA {} via={}", fname, via));
+            g.count(&format!("covt.view.access.via.{}", via));
+        }
+    }
+    for via in COVT_VIAS_BOXED {
+        g.op(format!("covt VX {} via={}", fname, via));
+        g.op(format!("covt VR {} via={}", fname, via));
+        g.op(format!("covt VN q via={}", via));
+        g.op(format!("covt VN p via={}", via));
+        g.count_n("covt.view.boxed", 4);
+    }
+}
+
+fn gen_softmax(g: &mut Gen) {
+    g.op("@ fp".to_string());
+    g.op("softmax - via=into_iter".to_string());
+    g.op("softmax - via=cloned".to_string());
+    let max_n = if g.thorough { 5 } else { 4 };
+    for n in 1..=max_n {
+        g.op("@ fp".to_string());
+        // n distinct values sorted by the order the code sees (signed representative); three
+        // pools: random signs, all negative, all non-negative (a maximum computed from a wrong
+        // starting value, e.g. zero, shows only when every input lies on one side of it)
+        for sign in ["mixed", "negative", "nonnegative"] {
+            let mut pool: Vec<Fp> = vec![];
+            while pool.len() < n {
+                let v = Fp::new(g.rng.next() % P);
+                let ok = match sign {
+                    "negative" => v.signed() < 0,
+                    "nonnegative" => v.signed() >= 0,
+                    _ => true,
+                };
+                if ok && !pool.contains(&v) {
+                    pool.push(v);
+                }
+            }
+            pool.sort_by(|a, b| a.partial_cmp(b).unwrap());
+            // all rank patterns (functions positions -> ranks): every ordering, ties included
+            let total = n.pow(n as u32);
+            for code in 0..total {
+                if sign != "mixed" && n >= 4 && !g.thorough && code % 4 != 0 {
+                    continue;
+                }
+                let mut c = code;
+                let mut ranks = vec![];
+                for _ in 0..n {
+                    ranks.push(c % n);
+                    c /= n;
+                }
+                let v: Vec<String> = ranks.iter().map(|&r| pool[r].0.to_string()).collect();
+                let distinct = { let mut r = ranks.clone(); r.sort(); r.dedup(); r.len() };
+                let via = if code % 3 == 2 { HINT_VIAS[(code / 3) % HINT_VIAS.len()] } else { LIST_VIAS[code % 4] };
+                g.op(format!("softmax {} via={}", v.join(","), via));
+                g.count(&format!("softmax.length={}", n));
+                g.count(&format!("softmax.signs.{}", sign));
+                g.count(if distinct == n { "softmax.all_distinct" } else { "softmax.with_ties" });
+            }
+        }
+    }
+    // values around the sign boundary of the order and random longer lists
+    g.op("@ fp".to_string());
+    let half = P / 2;
+    g.op(format!("softmax {},{},{},{} via=cloned", half, half + 1, 0, P - 1));
+    for _ in 0..(if g.thorough { 60 } else { 15 }) {
+        let n = g.rng.range(5, 9);
+        let v = vals(g, "fp", n);
+        let via = pick_list_via(g, n);
+        g.op(format!("softmax {} via={}", v, via));
+        g.count("softmax.random_long");
+    }
+    // f64 sanity oracle on large magnitudes (finite, non-negative, sums to ~1); never compared
+    // with the model beyond the list length
+    g.op("@ fp".to_string());
+    for v in [
+        "1000,1001,999", "-1000,-1001,-999", "1e308,1e308", "-1e308,1e308,0", "710,0,-710", "0,0,0,0",
+        "1e-300,2e-300", "745.2,745.1,-745.2", "88.8,-88.8,1e5", "123456789,123456788.5",
+    ] {
+        g.op(format!("softmax_f64 {}", v));
+        g.count("softmax.f64_sanity");
+    }
+}
+
+pub fn gen(g: &mut Gen) {
+    gen_lists(g);
+    let (ms, mf) = if g.thorough { (10, 7) } else { (5, 4) };
+    for s in 1..=ms {
+        for f in 1..=mf {
+            gen_cov_case(g, "fp", s, f);
+            if g.thorough || g.rng.chance(1, 2) {
+                gen_cov_case(g, "rat", s, f);
+            }
+        }
+    }
+    gen_softmax(g);
+}
+
+// ---------------------------------------------------------------------------------------------
+// execution against the implementation
+// ---------------------------------------------------------------------------------------------
+
+/// an iterator over a `Vec` that reports a chosen `size_hint`
+struct Hinted<T> {
+    inner: std::vec::IntoIter<T>,
+    loose: Option<usize>,
+}
+impl<T> Iterator for Hinted<T> {
+    type Item = T;
+    fn next(&mut self) -> Option<T> {
+        self.inner.next()
+    }
+    fn size_hint(&self) -> (usize, Option<usize>) {
+        match self.loose {
+            None => (0, None),
+            Some(extra) => (0, Some(self.inner.len() + extra)),
+        }
+    }
+}
+
+/// `data` through an iterator whose `size_hint` is not its exact length (`junk` elements are
+/// interleaved and removed again by the adaptor)
+fn inexact_iter<T: Clone + 'static>(data: Vec<T>, via: &str, junk: T) -> Box<dyn Iterator<Item = T>> {
+    let tagged = |keep: bool, v: Vec<T>| v.into_iter().map(move |x| (keep, x));
+    match via {
+        "filter" => {
+            let mut all: Vec<(bool, T)> = vec![(false, junk.clone())];
+            for x in data {
+                all.push((true, x));
+                all.push((false, junk.clone()));
+            }
+            Box::new(all.into_iter().filter(|p| p.0).map(|p| p.1))
+        }
+        "filter_map" => {
+            let mut all: Vec<Option<T>> = vec![];
+            for x in data {
+                all.push(None);
+                all.push(Some(x));
+            }
+            all.push(None);
+            all.push(None);
+            Box::new(all.into_iter().filter_map(|p| p))
+        }
+        "take_while" => {
+            let tail = vec![junk.clone(), junk.clone(), junk];
+            Box::new(tagged(true, data).chain(tagged(false, tail)).take_while(|p| p.0).map(|p| p.1))
+        }
+        "skip_while" => {
+            let head = vec![junk.clone(), junk];
+            Box::new(tagged(false, head).chain(tagged(true, data)).skip_while(|p| !p.0).map(|p| p.1))
+        }
+        "chain" => {
+            let mut a = data;
+            let b = a.split_off(a.len() / 2);
+            Box::new(a.into_iter().chain(b.into_iter()))
+        }
+        "chain_filter" => {
+            let mut a = data;
+            let b = a.split_off(a.len() / 2);
+            let junk2 = junk.clone();
+            Box::new(
+                tagged(true, a)
+                    .chain(std::iter::once((false, junk)))
+                    .chain(tagged(true, b))
+                    .chain(std::iter::once((false, junk2)))
+                    .filter(|p| p.0)
+                    .map(|p| p.1),
+            )
+        }
+        "nohint" => Box::new(Hinted { inner: data.into_iter(), loose: None }),
+        "loosehint" => Box::new(Hinted { inner: data.into_iter(), loose: Some(7) }),
+        other => panic!("unknown via {}", other),
+    }
+}
+
+fn show_value<T: Elem>(r: Result<T, PanicKind>) -> String {
+    match r {
+        Ok(v) => format!("value={}", v.show()),
+        Err(k) => panic_str(k),
+    }
+}
+fn show_list<T: Elem>(v: &[T]) -> String {
+    if v.is_empty() { "-".into() } else { v.iter().map(|x| x.show()).collect::<Vec<_>>().join(",") }
+}
+
+macro_rules! stats_for {
+    ($modname:ident, $T:ty, $env:ident) => {
+        mod $modname {
+            use super::*;
+            type T = $T;
+            use crate::c03::$env::{AnyT, Env};
+
+            fn parse_list(s: &str) -> Vec<T> {
+                split_comma(s).iter().map(|x| <T as Elem>::parse(x)).collect()
+            }
+
+            /// feeds the list to `f` through one of several iterator sources
+            fn with_list<R>(data: Vec<T>, via: &str, f: impl FnOnce(&mut dyn Iterator<Item = T>) -> R) -> R {
+                match via {
+                    "into_iter" => f(&mut data.into_iter()),
+                    "cloned" => f(&mut data.iter().cloned()),
+                    "matrix_column" => {
+                        let n = data.len();
+                        let m = Matrix::from_flat_row_major((n, 1), data);
+                        let r = f(&mut m.column_iter(0));
+                        r
+                    }
+                    "tensor_iter" => {
+                        let n = data.len();
+                        let t = Tensor::from([("x", n)], data);
+                        let r = f(&mut t.iter());
+                        r
+                    }
+                    other => {
+                        let mut it = inexact_iter(data, other, <T as Elem>::parse("7"));
+                        f(&mut *it)
+                    }
+                }
+            }
+
+            pub fn step(env: &mut Env, toks: &[&str]) -> String {
+                match toks {
+                    ["mean", vals, rest @ ..] => {
+                        let via = opt_arg("via", rest).unwrap_or("into_iter");
+                        let data = parse_list(vals);
+                        show_value(catch(|| with_list(data, via, |it| linear_algebra::mean::<_, T>(it))))
+                    }
+                    ["variance", vals, rest @ ..] => {
+                        let via = opt_arg("via", rest).unwrap_or("into_iter");
+                        let data = parse_list(vals);
+                        show_value(catch(|| with_list(data, via, |it| linear_algebra::variance::<_, T>(it))))
+                    }
+                    [op @ ("covcol" | "covrow"), name, rest @ ..] => {
+                        let via = opt_arg("via", rest).unwrap_or("fn");
+                        let m = match env.matrix(name) {
+                            Some(o) => o.plain(),
+                            None => return "no-operand".into(),
+                        };
+                        let r = catch(|| match (*op, via) {
+                            ("covcol", "fn") => linear_algebra::covariance_column_features::<T>(&m),
+                            ("covcol", _) => m.covariance_column_features(),
+                            ("covrow", "fn") => linear_algebra::covariance_row_features::<T>(&m),
+                            (_, _) => m.covariance_row_features(),
+                        });
+                        match r {
+                            Ok(c) => {
+                                let (rows, cols) = c.size();
+                                format!("size={}x{} data={}", rows, cols, show_list(&c.row_major_iter().collect::<Vec<T>>()))
+                            }
+                            Err(k) => panic_str(k),
+                        }
+                    }
+                    ["covt", name, feature, rest @ ..] => {
+                        let via = opt_arg("via", rest).unwrap_or("fn-rt");
+                        let f = intern(feature);
+                        let o = match env.tensor(name) {
+                            Some(AnyT::D2(o)) => o,
+                            Some(_) => return "bad-op".into(),
+                            None => return "no-operand".into(),
+                        };
+                        let r: Result<Tensor<T, 2>, PanicKind> = match via {
+                            "fn-t" => { let t = o.plain(); catch(|| linear_algebra::covariance::<T, _, _>(t, f)) }
+                            "fn-rt" => { let t = o.plain(); catch(|| linear_algebra::covariance::<T, _, _>(&t, f)) }
+                            "fn-v" => { let v = TensorView::from(o.plain()); catch(|| linear_algebra::covariance::<T, _, _>(v, f)) }
+                            "fn-rv" => { let v = TensorView::from(o.plain()); catch(|| linear_algebra::covariance::<T, _, _>(&v, f)) }
+                            "fn-bv" => { let v = TensorView::from(o.boxed()); catch(|| linear_algebra::covariance::<T, _, _>(v, f)) }
+                            "fn-rbv" => { let v = TensorView::from(o.boxed()); catch(|| linear_algebra::covariance::<T, _, _>(&v, f)) }
+                            "fn-av" => { let v = TensorView::from(o.access()); catch(|| linear_algebra::covariance::<T, _, _>(v, f)) }
+                            "fn-rav" => { let v = TensorView::from(o.access()); catch(|| linear_algebra::covariance::<T, _, _>(&v, f)) }
+                            "m-t" => { let t = o.plain(); catch(|| t.covariance(f)) }
+                            "m-v" => { let v = TensorView::from(o.plain()); catch(|| v.covariance(f)) }
+                            "m-bv" => { let v = TensorView::from(o.boxed()); catch(|| v.covariance(f)) }
+                            "m-av" => { let v = TensorView::from(o.access()); catch(|| v.covariance(f)) }
+                            other => panic!("unknown via {}", other),
+                        };
+                        match r {
+                            Ok(t) => format!("shape={} data={}", show_shape(&t.shape()), show_list(&t.iter().collect::<Vec<T>>())),
+                            Err(k) => panic_str(k),
+                        }
+                    }
+                    ["f1", p, r, ..] => {
+                        let (p, r) = (<T as Elem>::parse(p), <T as Elem>::parse(r));
+                        show_value(catch(|| linear_algebra::f1_score::<T>(p, r)))
+                    }
+                    _ => env.step(toks),
+                }
+            }
+        }
+    };
+}
+
+stats_for!(stats_fp, Fp, run_fp);
+stats_for!(stats_rat, Rat, run_rat);
+
+fn softmax_fp(vals: &str, via: &str) -> String {
+    let data: Vec<Fp> = split_comma(vals).iter().map(|x| <Fp as Elem>::parse(x)).collect();
+    let r = catch(|| match via {
+        "into_iter" => linear_algebra::softmax(data.into_iter()),
+        "cloned" => linear_algebra::softmax(data.iter().cloned()),
+        "matrix_column" => {
+            let n = data.len();
+            let m = Matrix::from_flat_row_major((n, 1), data);
+            linear_algebra::softmax(m.column_iter(0))
+        }
+        "tensor_iter" => {
+            let n = data.len();
+            let t = Tensor::from([("x", n)], data);
+            linear_algebra::softmax(t.iter())
+        }
+        other => linear_algebra::softmax(inexact_iter(data, other, Fp::new(7))),
+    });
+    match r {
+        Ok(v) => format!("data={}", show_list(&v)),
+        Err(k) => panic_str(k),
+    }
+}
+
+fn softmax_f64(vals: &str) -> String {
+    let data: Vec<f64> = split_comma(vals).iter().map(|x| x.parse::<f64>().expect("f64")).collect();
+    let n = data.len();
+    match catch(|| linear_algebra::softmax(data.into_iter())) {
+        Ok(v) => {
+            let finite = v.iter().all(|x| x.is_finite());
+            let nonneg = v.iter().all(|x| *x >= 0.0);
+            let sum: f64 = v.iter().sum();
+            if v.len() == n && finite && nonneg && (sum - 1.0).abs() < 1e-9 {
+                format!("sane len={}", n)
+            } else {
+                format!("insane len={} finite={} nonneg={} sum={}", v.len(), finite, nonneg, sum)
+            }
+        }
+        Err(k) => panic_str(k),
+    }
+}
+
+enum Case {
+    None,
+    Fp(run_fp::Env),
+    Rat(run_rat::Env),
+}
+
+pub struct Runner {
+    case: Case,
+}
 
 impl Runner {
     pub fn new() -> Runner {
-        Runner
+        Runner { case: Case::None }
     }
 
-    pub fn step(&mut self, _toks: &[&str]) -> String {
-        "unimplemented".into()
+    pub fn step(&mut self, toks: &[&str]) -> String {
+        match toks {
+            ["@", "fp"] => { self.case = Case::Fp(Default::default()); "ok".into() }
+            ["@", "rat"] => { self.case = Case::Rat(Default::default()); "ok".into() }
+            ["softmax_f64", vals, ..] => softmax_f64(vals),
+            _ => match &mut self.case {
+                Case::None => "no-case".into(),
+                Case::Fp(e) => match toks {
+                    ["softmax", vals, rest @ ..] => softmax_fp(vals, opt_arg("via", rest).unwrap_or("into_iter")),
+                    _ => stats_fp::step(e, toks),
+                },
+                Case::Rat(e) => stats_rat::step(e, toks),
+            },
+        }
     }
 }
